@@ -8,6 +8,7 @@ mod c07s;
 mod c08;
 mod c09;
 mod c10;
+mod c11;
 mod c13;
 mod c14;
 mod c16;
@@ -25,6 +26,14 @@ fn main() {
         std::process::exit(2);
     }
     let text = std::fs::read_to_string(&args[2]).expect("read cases");
+    if args[1] == "c11" {
+        // the server under test prints its start-up banner with println!: stdout must not be locked here
+        use std::io::Write;
+        let mut buf: Vec<u8> = Vec::new();
+        c11::run(&text, &args[2], &mut buf);
+        std::io::stdout().write_all(&buf).unwrap();
+        return;
+    }
     let out = std::io::stdout();
     let mut out = std::io::BufWriter::new(out.lock());
     match args[1].as_str() {
